@@ -162,7 +162,7 @@ pub fn run(ctx: &Ctx) -> Report {
         &format!("generated[{}]", ctx.variant),
         "config x 1..5 orientations x 0..4 drawing calls (in-bounds and arbitrary coordinates) issued afterwards; oracle: twin built with the last orientation (orientation(), size(), bounding_box(), controller MADCTL, frame memory after the program) and the reference image",
     );
-    run_generated(&mut sec, ctx.seed, ctx.cases(40_000, 1_000_000), ctx.workers, || strategy(gen::ConfigMenu::all_transports()), check, sig);
+    run_generated(&mut sec, ctx.seed, ctx.cases(150_000, 3_000_000), ctx.workers, || strategy(gen::ConfigMenu::all_transports()), check, sig);
     rep.sections.push(sec);
     rep
 }
